@@ -11,7 +11,7 @@ import numpy as np
 from harness import common, nnd_corr
 from harness.common import INF_KEY, fmt
 
-COQ_FILES = ["model/Base.v", "model/Rng.v", "model/Diversify.v", "proofs/ListAux.v", "proofs/C15Proofs.v"]
+COQ_FILES = ["model/Base.v", "model/Rng.v", "model/Diversify.v", "proofs/ListAux.v", "proofs/C15Proofs.v", "proofs/C15Wiring.v"]
 SENTINELS = {"pynndescent/pynndescent_.py": ["diversify", "diversify_csr"],
              "pynndescent/sparse.py": ["diversify", "diversify_csr"],
              "pynndescent/utils.py": ["tau_rand", "tau_rand_int"]}
@@ -277,13 +277,21 @@ def index_wiring(ctx, nsets):
         m = m.tocoo()
         return set((int(a), int(b)) for a, b, v in zip(m.row, m.col, m.data) if v != 0 and a != b)
 
-    for t in range(nsets):
-        n, k = rng.choice([(60, 5), (90, 6), (120, 8)])
-        rs = np.random.RandomState(rng.randrange(10 ** 6))
-        X = rs.randint(0, 400, size=(n, 3)).astype(np.float32)
-        if t % 3 == 2:
-            X[n // 2:n // 2 + 6] = X[:6]            # exact duplicates (zero-distance neighbours)
-        X[:, 0] += 1.0                               # no all-zero row (CSR rows never empty)
+    # the four-point witness of coq/props/C15.v (C15_index_reverse_pass_refuted; edge lists: witness_edges in proofs/C15Wiring.v)
+    WIT = np.array([(4, 2), (0, 7), (4, 7), (6, 4)], dtype=np.float32)
+    WIT_CODED = {(0, 1), (0, 3), (1, 0), (1, 2), (2, 1), (2, 3), (3, 0), (3, 2)}
+    WIT_INTENDED = WIT_CODED - {(1, 0)}
+    for t in range(-1, nsets):
+        if t < 0:
+            n, k = 4, 4
+            X = WIT.copy()
+        else:
+            n, k = rng.choice([(60, 5), (90, 6), (120, 8)])
+            rs = np.random.RandomState(rng.randrange(10 ** 6))
+            X = rs.randint(0, 400, size=(n, 3)).astype(np.float32)
+            if t % 3 == 2:
+                X[n // 2:n // 2 + 6] = X[:6]            # exact duplicates (zero-distance neighbours)
+            X[:, 0] += 1.0                               # no all-zero row (CSR rows never empty)
         D = ((X[:, None, :].astype(np.float64) - X[None, :, :]) ** 2).sum(-1)     # exact: squared euclidean of small integers
         order = np.argsort(D + np.eye(n) * -1.0, axis=1, kind="stable")[:, :k]
         knn_i = order.astype(np.int32)
@@ -314,6 +322,19 @@ def index_wiring(ctx, nsets):
                         continue
                     graphs[(prob, kind, compressed)] = got
                     done += 1
+        if t < 0:
+            # replay of the Coq witness on the real index: the model of the wiring as coded must describe the code
+            for kind in ("dense", "sparse"):
+                got = graphs.get((1.0, kind, False))
+                if got is not None and got != WIT_CODED and got != WIT_INTENDED:
+                    bad["index-witness:%s" % kind] = 1
+                    ctx.violation("index-witness:%s" % kind,
+                                  "the four-point witness of C15_index_reverse_pass_refuted: the %s index's search graph %s is neither the graph of the "
+                                  "wiring as coded nor the intended one (proofs/C15Wiring.v no longer describes _init_search_graph)" % (kind, sorted(got)),
+                                  dict(data=X.tolist(), n_neighbors=k, got=sorted(got), as_coded=sorted(WIT_CODED), intended=sorted(WIT_INTENDED)), True)
+            ctx.notes["witness_replay"] = {kind: ("as coded (reverse edge 1->0 present: finding reproduced)" if graphs.get((1.0, kind, False)) == WIT_CODED
+                                                  else "intended" if graphs.get((1.0, kind, False)) == WIT_INTENDED else "other")
+                                           for kind in ("dense", "sparse")}
         base = set((i, int(j)) for i in range(n) for j in knn_i[i] if int(j) != i)
         sym = base | set((b, a) for (a, b) in base)
         # specification for probability 1
